@@ -1305,30 +1305,54 @@ impl KeyFlags {
         })
     }
 
+    /// Makes sure the serialized form has room for the flags that are set.
+    ///
+    /// Flags parsed from an empty subpacket body serialize to nothing and flags with only one
+    /// octet serialize to one octet, unless a flag outside of that range has been set.
+    fn grow_to_fit(&mut self) {
+        let [a, b] = self.known.into_bits().to_le_bytes();
+        let needed = if b != 0 {
+            2
+        } else if a != 0 {
+            1
+        } else {
+            0
+        };
+        self.original_len = self.original_len.max(needed);
+    }
+
     pub fn set_certify(&mut self, val: bool) {
         self.known.set_certify(val);
+        self.grow_to_fit();
     }
     pub fn set_encrypt_comms(&mut self, val: bool) {
         self.known.set_encrypt_comms(val);
+        self.grow_to_fit();
     }
     pub fn set_encrypt_storage(&mut self, val: bool) {
         self.known.set_encrypt_storage(val);
+        self.grow_to_fit();
     }
     pub fn set_sign(&mut self, val: bool) {
         self.known.set_sign(val);
+        self.grow_to_fit();
     }
     pub fn set_shared(&mut self, val: bool) {
         self.known.set_shared(val);
+        self.grow_to_fit();
     }
     pub fn set_authentication(&mut self, val: bool) {
         self.known.set_authentication(val);
+        self.grow_to_fit();
     }
     #[cfg(feature = "draft-wussler-openpgp-forwarding")]
     pub fn set_draft_decrypt_forwarded(&mut self, val: bool) {
         self.known.set_draft_decrypt_forwarded(val);
+        self.grow_to_fit();
     }
     pub fn set_group(&mut self, val: bool) {
         self.known.set_group(val);
+        self.grow_to_fit();
     }
 
     /// Sets reserved flag 0x0004 also known as ADSK flag.
@@ -1339,10 +1363,12 @@ impl KeyFlags {
     /// <https://www.gnupg.org/blog/20230321-adsk.html>
     pub fn set_adsk(&mut self, val: bool) {
         self.known.set_adsk(val);
+        self.grow_to_fit();
     }
 
     pub fn set_timestamping(&mut self, val: bool) {
         self.known.set_timestamping(val);
+        self.grow_to_fit();
     }
 
     pub fn certify(&self) -> bool {
